@@ -617,6 +617,15 @@ func (g *gen) lookalikes() {
 			g.op(strings.Join([]string{"recv", hdr, "@1", sl, size(len(v)), sl, hk.Hex([]byte(ghost)), nl}, " "))
 			g.op("copy M1 E3")
 		}},
+		{"points-to-garbage", func() {
+			// a blob that does not decrypt, stored under its true digest, and a row that points to it:
+			// the ciphertext digest check passes, the authenticated decryption must refuse
+			g.recv("recv", []byte("a blob to be garbled"))
+			g.op("garble E3 flip 25000")
+			g.op("plant E E3")
+			g.op(strings.Join([]string{"recv", hdr, "@1", sl, size(len(v)), sl, "E4", nl}, " "))
+			g.op("copy M1 E5")
+		}},
 		{"two-fields", func() {
 			g.op(strings.Join([]string{"recv", hdr, "@1", sl, "E2", nl}, " "))
 			g.op("copy M1 E3")
